@@ -732,6 +732,9 @@ def check_user_names(res):
             src = ""
             for h in hooks:
                 ret = "return True" if h == "cond" else "return None"
+                # operands of guard expressions stay plain functions (coroutine operands inside
+                # an expression are C05's known finding)
+                a_ = "" if h == "cond" else ("async " if asyn else "")
                 src += (f"{a_}def {h}(self, **kwargs):\n"
                         f"    seen.append(('{h}', kwargs.get('{nm}', 'MISSING'), "
                         f"type(kwargs['event_data']).__name__))\n    {ret}\n")
@@ -740,7 +743,11 @@ def check_user_names(res):
             exec(src, ns)   # noqa: S102 - generated source
             a, b = State(initial=True, exit="on_exit_a_named"), State(enter="on_enter_b_named")
             body = {"a": a, "b": b,
-                    "go": a.to(b, cond=["cond", "cond_named"], validators=["val", "val_named"],
+                    # (the expression entries make the keyword travel through the and / or /
+                    # comparison combinators of the guard parser as well)
+                    "go": a.to(b, cond=["cond", "cond_named", "cond and cond_named",
+                                        "cond or cond_named", "cond == cond_named"],
+                               validators=["val", "val_named"],
                                on=["on_go_named"], before="before_go_named",
                                after="after_go_named") | b.to(a)}
             body.update({k: v for k, v in ns.items() if k != "seen" and not k.startswith("__")})
